@@ -77,8 +77,15 @@ func fillMsg(r *rand.Rand, m protoreflect.Message, p float64, depth int, skip ma
 		case fd.Kind() == protoreflect.MessageKind:
 			if fd.Message().FullName() == "google.protobuf.Timestamp" {
 				ts := &timestamppb.Timestamp{Seconds: pick(r, timePool)}
-				if r.Intn(3) == 0 {
+				switch r.Intn(8) {
+				case 0, 1:
 					ts.Nanos = int32(1 + r.Intn(999))
+				case 2:
+					ts.Nanos = 750000000
+				case 3: // outside the range protobuf calls valid (year 10000): still a value that must be copied, compared, kept
+					ts.Seconds = 253402300800
+				case 4:
+					ts.Seconds, ts.Nanos = -86400*365*5, 0 // before 1970
 				}
 				m.Set(fd, protoreflect.ValueOfMessage(ts.ProtoReflect()))
 			} else if depth > 0 {
@@ -103,6 +110,7 @@ type listOpts struct {
 	ids      []string // identifier pool
 	rich     float64  // probability of each attribute
 	ill      bool     // allow dangling references, several edges per key, repeated targets
+	parallel bool     // well-formed but not normalised: several edges per (source, type), repeated targets
 	types    []sbom.Edge_Type
 	maxNodes int
 }
@@ -129,7 +137,7 @@ func randList(r *rand.Rand, o listOpts) *sbom.NodeList {
 			}
 			t := pick(r, o.types)
 			key := fmt.Sprint(from, "/", t)
-			if seen[key] && !o.ill {
+			if seen[key] && !o.ill && !o.parallel {
 				continue
 			}
 			seen[key] = true
@@ -137,7 +145,7 @@ func randList(r *rand.Rand, o listOpts) *sbom.NodeList {
 			tseen := map[string]bool{}
 			for q, m := 0, 1+r.Intn(3); q < m; q++ {
 				to := pick(r, targets)
-				if tseen[to] && !(o.ill && r.Intn(2) == 0) {
+				if tseen[to] && !((o.ill || o.parallel) && r.Intn(2) == 0) {
 					continue
 				}
 				tseen[to] = true
